@@ -307,6 +307,85 @@ theorem disable_removes_exactly_diags (re : Regex) (oracle : AsyncOracle) (ctx :
     rw [diags_without re oracle ctx v _ hD, h]
   · cases h
 
+/-- generalisation: keeping the validators that satisfy `p` keeps exactly the diagnostics whose code satisfies `p` -/
+theorem diags_filter (re : Regex) (oracle : AsyncOracle) (ctx : List FileCtx) (p : String → Bool) (vs : List String)
+    (hvs : ∀ w ∈ vs, w ∈ Gen.detectorNames) :
+    resultDiags (((vs.filter p).map (validatorResults re oracle ctx)).flatten) =
+      (resultDiags ((vs.map (validatorResults re oracle ctx)).flatten)).filter (fun d => p d.2.code) := by
+  induction vs with
+  | nil => simp [resultDiags]
+  | cons w ws ih =>
+    have ihw := ih (fun x hx => hvs x (by simp [hx]))
+    have hw := hvs w (by simp)
+    simp only [List.map_cons, List.flatten_cons, resultDiags_append, List.filter_append]
+    have hcodes : ∀ d ∈ resultDiags (validatorResults re oracle ctx w), d.2.code = w := by
+      intro d hd
+      simp only [resultDiags, List.mem_flatten, List.mem_map] at hd
+      obtain ⟨l, ⟨r, hr, rfl⟩, hd⟩ := hd
+      cases hr2 : r.2 with
+      | error e => rw [hr2] at hd; cases hd
+      | ok lst =>
+        rw [hr2] at hd
+        obtain ⟨x, hx, rfl⟩ := List.mem_map.1 hd
+        exact results_code re oracle ctx w hw r hr lst hr2 x hx
+    by_cases hpw : p w = true
+    · have : (List.filter (fun d => p d.2.code) (resultDiags (validatorResults re oracle ctx w))) =
+          resultDiags (validatorResults re oracle ctx w) := by
+        rw [List.filter_eq_self]
+        intro d hd
+        rw [hcodes d hd]; exact hpw
+      simp only [List.filter_cons, hpw, if_true, List.map_cons, List.flatten_cons, resultDiags_append, this]
+      rw [ihw]
+    · have : (List.filter (fun d => p d.2.code) (resultDiags (validatorResults re oracle ctx w))) = [] := by
+        rw [List.filter_eq_nil_iff]
+        intro d hd
+        rw [hcodes d hd]; exact hpw
+      simp only [List.filter_cons, hpw, if_false, Bool.false_eq_true, this, List.nil_append]
+      exact ihw
+
+theorem errors_filter (re : Regex) (oracle : AsyncOracle) (ctx : List FileCtx) (p : String → Bool) (vs : List String) :
+    ∀ e ∈ resultErrors (((vs.filter p).map (validatorResults re oracle ctx)).flatten),
+      e ∈ resultErrors ((vs.map (validatorResults re oracle ctx)).flatten) := by
+  induction vs with
+  | nil => simp
+  | cons w ws ih =>
+    intro e he
+    simp only [List.map_cons, List.flatten_cons, resultErrors_append, List.mem_append]
+    by_cases hpw : p w = true
+    · simp only [List.filter_cons, hpw, if_true, List.map_cons, List.flatten_cons, resultErrors_append, List.mem_append] at he
+      rcases he with he | he
+      · exact Or.inl he
+      · exact Or.inr (ih e he)
+    · simp only [List.filter_cons, hpw, if_false, Bool.false_eq_true] at he
+      exact Or.inr (ih e he)
+
+/-- **`--enable E` keeps exactly E's diagnostics**: if the unrestricted run succeeds with diagnostics `ds`, the run with
+    `-e` for the names in `E` succeeds with exactly the diagnostics of `ds` whose code is in `E`, unchanged -/
+theorem enable_keeps_exactly_diags (re : Regex) (oracle : AsyncOracle) (ctx : List FileCtx) (en : List String) (hen : en ≠ [])
+    (ds : List (Text × Diag)) (h : run re oracle ctx [] [] = .ok ds) :
+    run re oracle ctx en [] = .ok (ds.filter (fun d => en.contains d.2.code)) := by
+  have hD : ∀ w ∈ detected ctx [] [], w ∈ Gen.detectorNames := by
+    intro w hw
+    have := ((detected_mem ctx [] [] w).1 hw).1
+    exact ((chosen_def [] [] w).1 this).1
+  unfold run at h ⊢
+  simp only at h ⊢
+  unfold runResults at h ⊢
+  rw [enable_keeps_exactly ctx en hen]
+  split at h
+  · rename_i hemp
+    injection h with h
+    have hnone : resultErrors (((detected ctx [] []).filter (en.contains ·)).map (validatorResults re oracle ctx)).flatten = [] := by
+      cases hl : resultErrors (((detected ctx [] []).filter (en.contains ·)).map (validatorResults re oracle ctx)).flatten with
+      | nil => rfl
+      | cons e es =>
+        have := errors_filter re oracle ctx (en.contains ·) (detected ctx [] []) e (by rw [hl]; simp)
+        rw [List.isEmpty_iff] at hemp
+        rw [hemp] at this; cases this
+    simp only [hnone, List.isEmpty_nil, if_true]
+    rw [diags_filter re oracle ctx (en.contains ·) _ hD, h]
+  · cases h
+
 /-- the detector table (regenerated from the source) holds the seven validators, each once -/
 theorem detector_table : Gen.detectorNames.length = 7 ∧ Gen.detectorNames.Nodup ∧
     ∀ v ∈ ["affects", "keep-sorted", "keep-unique", "line-pattern", "line-count", "check-ai", "check-lua"],
